@@ -106,7 +106,27 @@ def judge_socket(seq, cfg, chunk, bufsize):
     return out
 
 
+def opposite(cfg):
+    return dict(msgmode=3 - cfg["msgmode"], validate=1 - cfg["validate"], parsebitfield=1 - cfg["parsebitfield"], quitonerror=cfg["quitonerror"], handler=cfg["handler"])
+
+
+def judge_live(seq, cfgs):
+    """Several readers with different options alive at once (all constructed, then drained round-robin):
+    each must deliver what its own options prescribe."""
+    data = streams.seq_bytes(seq)
+    out = []
+    for cfg, r in zip(cfgs, streams.run_group(data, cfgs, use_iter=True)):
+        exp = expected_items(seq, cfg)
+        if r.raised is not None:
+            out.append((f"raised|{type(r.raised).__name__}|live_readers", str(r.raised)))
+        elif item_sigs(r) != exp:
+            out.append(("reader_influenced_by_another_live_reader", f"cfg={cfg} got {len(r.items)} items, want {len(exp)}"))
+    return out
+
+
 def replay_case(case):
+    if case.get("live"):
+        return judge_live(tuple(case["tokens"]), case["live"])
     if case.get("socket"):
         return judge_socket(tuple(case["tokens"]), case["cfg"], case["socket"][0], case["socket"][1])
     return judge(tuple(case["tokens"]), case["cfg"])[0]
@@ -126,6 +146,17 @@ def eval_block(block, acc):
                         acc.outcomes[("socket", chunk, bufsize)] += 1
                         for key, detail in out:
                             acc.violation(key, {"tokens": list(seq), "cfg": cfg, "socket": [chunk, bufsize]}, detail)
+        return
+    if ring == "live":
+        for seq in [(first,)] + [(first, t) for t in ALPHABET]:
+            for a in product_configs():
+                for cfgs in ([a, opposite(a)], [a, DEFAULTS[0]]):
+                    out = judge_live(seq, cfgs)
+                    acc.evaluations += 1
+                    acc.transitions += 2
+                    acc.outcomes[("live", a["msgmode"], a["validate"])] += 1
+                    for key, detail in out:
+                        acc.violation(key, {"tokens": list(seq), "live": cfgs}, detail)
         return
     if ring == "long":
         cfgs = DEFAULTS + [dict(msgmode=1, validate=0, quitonerror=1, handler=True)]
@@ -156,6 +187,7 @@ def run_tier(tier, t0):
     blocks += [("product", f, k_prod) for f in ALPHABET]
     blocks.append(("long", None, 0))
     blocks += [("socket", f, 2) for f in streams.FRAME_TOKENS]
+    blocks += [("live", f, 2) for f in streams.FRAME_TOKENS]
     acc = engine.sweep(blocks, eval_block)
     # vacuity: per mode, at least one accepted and one rejected token per protocol that can be accepted
     vac = []
@@ -175,6 +207,7 @@ def run_tier(tier, t0):
             "from each token's standalone parser verdict. distinct_nontrivial = distinct (frames expected, protocols) classes"
         ),
         assumptions=[
+            "live-reader ring: for sequences of <= 2 tokens, each of the 32 option combinations is read while a second reader with the opposite options (and one with default options) is alive, constructed after it and drained in lock-step",
             "sequences of <= 2 tokens are also delivered through a socket in fixed chunks of 1,2,3,5,8,13,64 bytes x bufsize 4,16,4096 (every segmentation is C10's job)",
             "pynmeagps / pyrtcm parsers are the oracle for 'accepted by its protocol parser' (O4)",
             "noise tokens contain none of b5, 24, d3",
